@@ -232,6 +232,9 @@ func (ab actionsBuilder) preparePipelineActions(oldConfig, newConfig config.Pipe
 
 	// compare configs but ignore nested configs and some fields
 	opts := []cmp.Option{
+		// an empty list (e.g. an API document without processors) is the same
+		// as a missing one (what Export produces)
+		cmpopts.EquateEmpty(),
 		cmpopts.IgnoreFields(config.Pipeline{}, config.PipelineIgnoredFields...),
 		cmp.Comparer(func(c1, c2 config.Connector) bool { return c1.ID == c2.ID }),
 		cmp.Comparer(func(c1, c2 config.Processor) bool { return c1.ID == c2.ID }),
@@ -269,6 +272,7 @@ func (ab actionsBuilder) prepareConnectorActions(oldConfig, newConfig config.Con
 
 	// first compare configs but ignore nested configs
 	opts := []cmp.Option{
+		cmpopts.EquateEmpty(), // see preparePipelineActions
 		cmp.Comparer(func(p1, p2 config.Processor) bool { return p1.ID == p2.ID }),
 	}
 	if cmp.Equal(oldConfig, newConfig, opts...) {
@@ -326,7 +330,7 @@ func (ab actionsBuilder) prepareProcessorActions(oldConfig, newConfig config.Pro
 	}
 
 	// configs match, no need to do anything
-	if cmp.Equal(oldConfig, newConfig) {
+	if cmp.Equal(oldConfig, newConfig, cmpopts.EquateEmpty()) {
 		return nil
 	}
 
